@@ -265,8 +265,8 @@ unit("lib.buffer.push_word.anydouble", "buffer/push-word, ALL numbers incl. nega
      "h_buffer_word", cf("cfun_buffer_word"), cls="bounded", bound="at most 2 pushed values", tier="thorough",
      disabled_reason="fails on the pinned tree (cfun_buffer_word overflow obligation on `(uint32_t) number`): undefined by C99 6.3.1.4 for NaN and values outside (-1, 2^32); on x86-64 / AArch64 the converted value differs from the argument, so `word != number` raises 'cannot convert ... to machine word' as documented - (buffer/push-word @\"\" -1), 4294967296, math/nan all raise; no observable misbehaviour",
      assumes=BA, **dict(PW, defines=PW["defines"] + ["-DLIB_WORD_ANY_DOUBLE"], unwindset=dict(B["unwindset"], **{W("cfun_buffer_word") + ".0": 5})), mutants=WORD_M[:1])
-PS = dict(B, cbmc=["--sat-solver", "cadical"], defines=B["defines"] + ["-DLIB_PUSH_MAXARGC=2"])
-PUSHB = "one pushed argument (argc <= 2, the argument loop reallocates and is unwound) from ANY well-formed buffer - the step of an induction over the arguments, each of which is appended to whatever buffer the previous ones left; buffer size and byte-sequence length unbounded (two arguments at once: > 20 min)"
+PS = dict(B, cbmc=["--sat-solver", "cadical"], defines=B["defines"] + ["-DLIB_PUSH_MAXARGC=3"], replace_calls=["realloc:lib_realloc"], unwindset={})   # memcpy: the plain seq_common.h model (symbolic sizes)
+PUSHB = "at most 2 pushed arguments (argc <= 3, the argument loop reallocates and is unwound); buffer size and byte-sequence length unbounded"
 SELFDOM = "domain restriction: the buffer is pushed onto itself only while shorter than 1 GiB (`buffer->count + view.len` overflows int32 otherwise; units str.cfun.buffer.push_at.selfhuge / lib.buffer.push_string.selfhuge)"
 unit("lib.buffer.push_string", "buffer/push-string, every buffer size: arity >= 1; the byte sequences are appended in order - the buffer itself contributes its content at that moment (no use of a stale block after growth); exact new length; prefix unchanged; raises instead of exceeding INT32_MAX; memcpy ranges valid and disjoint; foreign memory never reallocated; returns buffer",
      "h_buffer_chars", cf("cfun_buffer_chars"), cls="bounded", bound=PUSHB, tier="thorough", timeout=600,
@@ -359,6 +359,114 @@ for nm, lisp, dfn in [("concat", "array/concat", []), ("join", "array/join", ["-
          "h_array_concat_self", cls="bounded", bound="first 2 element copies only (copy loop cut without unwinding assertion); array size unbounded", tier="thorough",
          unwinding_assertions=False, disabled_reason=SELF_DEFECT % ("cfun_array_" + nm, lisp), assumes=CCA, functions=["cfun_array_" + nm],
          mutants=[M_NORES if nm == "concat" else M_STALE("join")], **dict(CC, defines=["-DLIB_MAXPART=2"] + dfn, unwind=3))
+
+# ------------------------------------------------------------------ tuple.c
+TU = dict(src=["tuple.c"], link=["wrap.c", "util.c"], link_keep={"util.c": ["safe_memcpy"]}, harness=["lib_tuple.c"], object_bits=7, cbmc=["--sat-solver", "cadical"])
+TUA = ["janet_gcalloc returns a fresh block of the requested size (type and size recorded); janet_array_calchash returns an arbitrary value",
+       "memcpy model (seq_common.h): ranges valid and disjoint - counted obligations; pointwise effect on the ghost element",
+       "capi.c getters are stubs: janet_gettuple yields the data pointer of a tuple block of any length, janet_getindexed any readable indexed view, janet_getinteger the slot's low 32 bits, each asserts slot index < argc; janet_arity/janet_fixarity return only for an accepted argc"]
+unit("lib.tuple.begin", "janet_tuple_begin, every length >= 0: one allocation of exactly header + length * 8 bytes of type TUPLE, length stored, source map (-1, -1); returns the data pointer",
+     "h_tuple_begin", "janet_tuple_begin/janet_tuple_begin_c", assumes=TUA[:1], **TU,
+     mutants=[mut("block-one-element-short", "tuple.c", "size_t size = sizeof(JanetTupleHead) + ((size_t) length * sizeof(Janet));", "size_t size = sizeof(JanetTupleHead) + ((size_t) (length - 1) * sizeof(Janet));", "postcondition|pointer"),
+              mut("sourcemap-zero", "tuple.c", "    head->sm_column = -1;", "    head->sm_column = 0;", "postcondition")])
+unit("lib.tuple.n", "janet_tuple_n, every n >= 0 and readable source: a new tuple block of exactly n elements equal to the source (memcpy inside both blocks), source map (-1, -1); source not modified",
+     "h_tuple_n", "janet_tuple_n/janet_tuple_n_c", assumes=TUA[:2], **TU,
+     mutants=[mut("copies-n-bytes", "tuple.c", "    safe_memcpy(t, values, sizeof(Janet) * n);\n    return janet_tuple_end(t);", "    safe_memcpy(t, values, n);\n    return janet_tuple_end(t);", "postcondition|copy model"),
+              mut("copies-one-more", "tuple.c", "    safe_memcpy(t, values, sizeof(Janet) * n);\n    return janet_tuple_end(t);", "    safe_memcpy(t, values, sizeof(Janet) * (n + 1));\n    return janet_tuple_end(t);", "memcpy model|overflow")])
+unit("lib.tuple.brackets", "tuple/brackets, every argument count: returns a NEW tuple of exactly the arguments in order, marked as bracketed; arguments not modified",
+     "h_tuple_brackets", cf("cfun_tuple_brackets"), assumes=TUA, **TU,
+     mutants=[mut("flag-not-set", "tuple.c", "    janet_tuple_flag(tup) |= JANET_TUPLE_FLAG_BRACKETCTOR;\n", "", "postcondition"),
+              mut("drops-first-argument", "tuple.c", "const Janet *tup = janet_tuple_n(argv, argc);", "const Janet *tup = janet_tuple_n(argv + 1, argc - 1);", "postcondition|memcpy model|overflow")])
+unit("lib.tuple.slice", "tuple/slice: arity 1..3; returns a NEW tuple holding exactly items[start, end) of the array or tuple (range decoding: janet_getslice); memcpy inside both blocks; source not modified",
+     "h_tuple_slice", cf("cfun_tuple_slice"), assumes=TUA + ["janet_getslice replaced by its contract (proved in seq.capi.getslice)", "domain restriction argc >= 1 (argv[0] is read before the arity check; recorded in lib.string.slice.argc0)"], **TU,
+     mutants=[mut("length-is-end", "tuple.c", "janet_tuple_n(view.items + range.start, range.end - range.start)", "janet_tuple_n(view.items + range.start, range.end)", "postcondition|memcpy model"),
+              mut("from-start-of-source", "tuple.c", "janet_tuple_n(view.items + range.start, range.end - range.start)", "janet_tuple_n(view.items, range.end - range.start)", "postcondition")])
+KW = "janet_csymbol records the C string and returns a fixed keyword pointer"
+unit("lib.tuple.type", "tuple/type: arity 1; returns the keyword :brackets exactly when the tuple carries the bracket flag, :parens otherwise; the tuple is not modified",
+     "h_tuple_type", cf("cfun_tuple_type"), assumes=TUA + [KW], **TU,
+     mutants=[mut("inverted", "tuple.c", "    if (janet_tuple_flag(tup) & JANET_TUPLE_FLAG_BRACKETCTOR) {\n        return janet_ckeywordv(\"brackets\");", "    if (!(janet_tuple_flag(tup) & JANET_TUPLE_FLAG_BRACKETCTOR)) {\n        return janet_ckeywordv(\"brackets\");", "postcondition")])
+unit("lib.tuple.sourcemap", "tuple/sourcemap: arity 1; returns a NEW tuple (line column) holding the tuple's source mapping as integers; the tuple is not modified",
+     "h_tuple_sourcemap", cf("cfun_tuple_sourcemap"), assumes=TUA, **TU,
+     mutants=[mut("column-twice", "tuple.c", "contents[0] = janet_wrap_integer(janet_tuple_head(tup)->sm_line);", "contents[0] = janet_wrap_integer(janet_tuple_head(tup)->sm_column);", "postcondition")])
+unit("lib.tuple.setmap", "tuple/setmap: arity 3; stores line and column (fetched as integers) in the tuple's header; length, hash, flags and elements unchanged (nothing else assigned); returns tup",
+     "h_tuple_setmap", cf("cfun_tuple_setmap"), assumes=TUA, **TU,
+     mutants=[mut("column-into-line", "tuple.c", "    janet_tuple_head(tup)->sm_column = janet_getinteger(argv, 2);", "    janet_tuple_head(tup)->sm_line = janet_getinteger(argv, 2);", "postcondition"),
+              mut("writes-the-hash", "tuple.c", "    janet_tuple_head(tup)->sm_column = janet_getinteger(argv, 2);", "    janet_tuple_head(tup)->hash = janet_getinteger(argv, 2);", "postcondition|assigns")])
+for n in (0, 1, 2):
+    fn = "cfun_tuple_join"
+    unit("lib.tuple.join.n%d" % n, "tuple/join with %d part(s): every part must be an array or tuple (else raises); returns a NEW tuple = part 0 ++ part 1 of length sum(len part) computed without int32 overflow - raises instead of exceeding INT32_MAX; memcpy inside the new block and the parts; parts not modified" % n,
+         "h_tuple_join", cf(fn), cls="bounded", bound="exactly %d part(s) (both passes over the arguments are unwound; units n0..n2); the length of every part unbounded" % n,
+         assumes=TUA + ["janet_indexed_view is a pure function of the value: equal arguments have the same view; an argument may be no indexed sequence"],
+         unwindset={W(fn) + ".0": 4, W(fn) + ".1": 4, "janet_indexed_view.0": 4, "h_tuple_join.0": 4},
+         **dict(TU, defines=["-DLIB_NPARTS=%d" % n]),
+         mutants=([mut("overflow-check-dropped", "tuple.c", "        if (INT32_MAX - total_len < len) {\n            janet_panic(\"tuple too large\");\n        }\n", "", "overflow|postcondition"),
+                   mut("cursor-not-advanced", "tuple.c", "        tup_cursor += len;\n", "", "postcondition|memcpy model")] if n == 2 else
+                  [mut("type-check-dropped", "tuple.c", "        if (!janet_indexed_view(argv[i], &vals, &len)) {\n            janet_panicf(\"expected indexed type for argument %d, got %v\", i, argv[i]);\n        }\n        if (INT32_MAX - total_len < len) {", "        janet_indexed_view(argv[i], &vals, &len);\n        if (INT32_MAX - total_len < len) {", "postcondition|memcpy model|pointer")] if n == 1 else
+                  [mut("length-starts-at-one", "tuple.c", "    int32_t total_len = 0;", "    int32_t total_len = 1;", "postcondition")]))
+
+# ------------------------------------------------------------------ table.c: registered C functions
+TB = dict(mode="plain", nanbox=False, src=["table.c"], link=["wrap.c", "util.c"], link_keep={"util.c": ["janet_tablen"]}, harness=["lib_table.c"], props=["C04"],
+          replace_calls=["janet_memalloc_empty:janet_memalloc_empty_stub", "janet_table_rawget:janet_table_rawget_stub", "janet_table_clear:janet_table_clear_stub"], cls="full-domain")
+NOBOX = "configuration nanbox: false (tagged-struct values, JANET_NO_NANBOX): returned references are compared by pointer identity"
+TBA = [NOBOX, "capi.c getters are stubs: janet_gettable yields the harness-built table of slot 0 / 1, janet_getnat the slot's low 32 bits (returns only when >= 0), each asserts slot index < argc; janet_fixarity returns only for the accepted argc",
+       "janet_gcalloc returns a fresh block (type recorded); janet_memalloc_empty replaced by its contract: count > 0 asserted, fresh block of count buckets, all (nil, nil)"]
+for fn, lisp, mt in [("table_new", "table/new", "TABLE"), ("table_weak", "table/weak", "TABLE_WEAKKV"), ("table_weak_keys", "table/weak-keys", "TABLE_WEAKK"), ("table_weak_values", "table/weak-values", "TABLE_WEAKV")]:
+    unit("lib.table." + fn[6:], "%s, every capacity 0 <= c < 2^30: arity 1; raises for a negative capacity; returns a NEW empty table (memory type %s) without prototype whose bucket array has the smallest power of two above c buckets, all empty; janet_tablen without overflow" % (lisp, mt),
+         "h_" + fn, functions=["cfun_" + fn, "janet_table_init_impl", "janet_tablen"], assumes=TBA + ["domain restriction capacity < 2^30 (janet_tablen overflows beyond; unit lib.table.new.huge)"], **TB,
+         mutants=[mut("count-not-zeroed", "table.c", "    table->count = 0;\n    table->deleted = 0;\n    table->proto = NULL;", "    table->count = capacity;\n    table->deleted = 0;\n    table->proto = NULL;", "C04"),
+                  mut("tablen-not-applied", "table.c", "    capacity = janet_tablen(capacity);\n    if (stackalloc)", "    if (stackalloc)", "C04|precondition")] +
+                 ([mut("weak-kind-mixed-up", "table.c", "JanetTable *table = janet_gcalloc(JANET_MEMORY_%s, sizeof(JanetTable));" % mt, "JanetTable *table = janet_gcalloc(JANET_MEMORY_TABLE, sizeof(JanetTable));", "C04")] if mt != "TABLE" else []))
+unit("lib.table.new.huge", "table/new (and the weak variants, struct constructors: same helper janet_tablen), ALL non-negative capacities: janet_tablen computes the bucket count without signed overflow and the request either raises or yields a well-formed table",
+     "h_table_new", tier="thorough", functions=["cfun_table_new", "janet_tablen"], assumes=TBA, **dict(TB, defines=["-DLIB_TABLE_ANY_CAP"]),
+     disabled_reason="fails on the pinned tree (janet_tablen.overflow 'arithmetic overflow on signed + in n + 1', then janet_memalloc_empty precondition count > 0): for 2^30 <= capacity < 2^31 janet_tablen computes 0x7FFFFFFF + 1 (formal UB; wraps to INT32_MIN), janet_table_init_impl passes the negative count to janet_memalloc_empty whose malloc((size_t) count * 16) fails: (table/new 1073741824) terminates the process with 'janet out of memory' instead of raising. CONFIRMED on /repo/_build/janet. No memory corruption; the same exit happens for any capacity whose bucket array cannot be allocated. janet_struct_begin guards the same wrap with `if (capacity < 0)` (relies on the wrap-around)",
+     mutants=[mut("tablen-not-applied", "table.c", "    capacity = janet_tablen(capacity);\n    if (stackalloc)", "    if (stackalloc)", "C04|precondition")])
+unit("lib.table.getproto", "table/getproto: arity 1; returns the prototype table, nil when there is none; the table is not modified",
+     "h_table_getproto", functions=["cfun_table_getproto"], assumes=TBA[:2], **TB,
+     mutants=[mut("returns-the-table", "table.c", "           ? janet_wrap_table(t->proto)\n", "           ? janet_wrap_table(t)\n", "C04")])
+unit("lib.table.setproto", "table/setproto: arity 2; proto must be a table or nil; stores it as the prototype (nil clears it) and changes nothing else of either table; returns tab",
+     "h_table_setproto", functions=["cfun_table_setproto"], assumes=TBA[:2], **TB,
+     mutants=[mut("nil-not-accepted", "table.c", "    if (!janet_checktype(argv[1], JANET_NIL)) {\n        proto = janet_gettable(argv, 1);\n    }", "    proto = janet_gettable(argv, 1);", "C04"),
+              mut("sets-proto-of-proto", "table.c", "    table->proto = proto;\n    return argv[0];", "    if (proto) proto->proto = table;\n    return argv[0];", "C04")])
+unit("lib.table.rawget", "table/rawget: arity 2; returns janet_table_rawget(tab, key) - the lookup in tab itself, never the prototype chain (janet_table_rawget: units tab.rawget.*)",
+     "h_table_rawget", functions=["cfun_table_rawget"], assumes=TBA[:2] + ["janet_table_rawget replaced by a recording stub (proved in tab.rawget.cap2/4/8)"], **TB,
+     mutants=[mut("looks-up-the-table-itself", "table.c", "    return janet_table_rawget(table, argv[1]);", "    return janet_table_rawget(table, argv[0]);", "C04")])
+unit("lib.table.clear", "table/clear: arity 1; clears tab with janet_table_clear (units tab.clear.*) and returns tab",
+     "h_table_clear", functions=["cfun_table_clear"], assumes=TBA[:2] + ["janet_table_clear replaced by a recording stub (proved in tab.clear.cap2/4/8)"], **TB,
+     mutants=[mut("clear-not-called", "table.c", "    JanetTable *table = janet_gettable(argv, 0);\n    janet_table_clear(table);\n    return janet_wrap_table(table);", "    JanetTable *table = janet_gettable(argv, 0);\n    return janet_wrap_table(table);", "C04")])
+unit("lib.table.clone", "table/clone, every capacity: arity 1; returns a NEW table with the same count, capacity, tombstone count and prototype and a bucket array OF ITS OWN holding the same buckets (updates to one do not reach the other); memcpy inside both arrays; the source is not modified",
+     "h_table_clone", functions=["cfun_table_clone", "janet_table_clone"], assumes=TBA[:2] + ["janet_gcalloc returns a fresh block; malloc does not fail (CBMC default)", "memcpy model (lib_table.c): ranges valid and disjoint - counted obligations; pointwise effect on the ghost bucket"], **TB,
+     mutants=[mut("shares-the-bucket-array", "table.c", "    memcpy(newTable->data, table->data, (size_t) table->capacity * sizeof(JanetKV));\n    return newTable;", "    newTable->data = table->data;\n    return newTable;", "C04"),
+              mut("proto-dropped", "table.c", "    newTable->proto = table->proto;\n", "    newTable->proto = NULL;\n", "C04"),
+              mut("copies-count-buckets", "table.c", "    memcpy(newTable->data, table->data, (size_t) table->capacity * sizeof(JanetKV));", "    memcpy(newTable->data, table->data, (size_t) table->count * sizeof(JanetKV));", "C04|memcpy model")])
+
+# ------------------------------------------------------------------ struct.c: registered C functions
+ST = dict(mode="plain", nanbox=False, src=["struct.c"], link=["wrap.c"], harness=["lib_struct.c"], props=["C04"], unwind=9, cbmc=["--sat-solver", "cadical"],
+          replace_calls=["janet_struct_begin:janet_struct_begin_stub", "janet_struct_put:janet_struct_put_stub", "janet_struct_put_ext:janet_struct_put_ext_stub",
+                         "janet_struct_end:janet_struct_end_stub", "janet_struct_rawget:janet_struct_rawget_stub"], cls="bounded")
+STB = "prototype chains of 1..3 structs with 1..2 buckets each (any bucket content, empty buckets included); at most 7 arguments"
+STA = [NOBOX, "janet_struct_begin / janet_struct_put / janet_struct_put_ext / janet_struct_end / janet_struct_rawget replaced by recording stubs asserting their call protocol (real bodies: units struct.layout.*, val.struct.* of C03)",
+       "janet_table / janet_table_put are recording stubs (real bodies: units tab.*)",
+       "capi.c getters are stubs: janet_getstruct yields the first struct of the chain, janet_optstruct the default for an absent or nil slot, each asserts slot index < argc; janet_arity/janet_fixarity return only for an accepted argc"]
+unit("lib.struct.with_proto", "struct/with-proto: odd argument count >= 1 (else raises); proto must be a struct or nil; one struct of argc / 2 pairs is built from the arguments in order (no slot beyond argc read), the prototype is attached before janet_struct_end computes the hash; returns the finished struct",
+     "h_struct_with_proto", bound=STB, functions=["cfun_struct_with_proto"], assumes=STA, **ST,
+     mutants=[mut("even-count-accepted", "struct.c", "    if (!(argc & 1))\n        janet_panic(\"expected odd number of arguments\");\n", "", "C04|slot index|pointer"),
+              mut("proto-attached-after-end", "struct.c", "    janet_struct_proto(st) = proto;\n    return janet_wrap_struct(janet_struct_end(st));", "    const JanetKV *done = janet_struct_end(st);\n    janet_struct_proto(st) = proto;\n    return janet_wrap_struct(done);", "C04"),
+              mut("value-key-swapped", "struct.c", "        janet_struct_put(st, argv[i], argv[i + 1]);\n    }\n    janet_struct_proto(st) = proto;", "        janet_struct_put(st, argv[i + 1], argv[i]);\n    }\n    janet_struct_proto(st) = proto;", "C04")])
+unit("lib.struct.getproto", "struct/getproto: arity 1; returns the prototype struct, nil when there is none",
+     "h_struct_getproto", bound=STB, functions=["cfun_struct_getproto"], assumes=STA[:1] + STA[3:], **ST,
+     mutants=[mut("returns-the-struct", "struct.c", "           ? janet_wrap_struct(janet_struct_proto(st))\n", "           ? janet_wrap_struct(st)\n", "C04")])
+unit("lib.struct.rawget", "struct/rawget: arity 2; returns janet_struct_rawget(st, key) - the lookup in st itself, never the prototype chain",
+     "h_struct_rawget", bound=STB, functions=["cfun_struct_rawget"], assumes=STA[:2] + STA[3:], **ST,
+     mutants=[mut("looks-up-with-prototypes", "struct.c", "    return janet_struct_rawget(st, argv[1]);", "    return janet_struct_get(st, argv[1]);", "C04")])
+unit("lib.struct.to_table", "struct/to-table: arity 1..2; without a truthy `recursive` ONE new table without prototype holding exactly the pairs of st; with it one table per struct of the prototype chain, table k holding exactly the pairs of struct k and having table k + 1 as prototype; reads inside the structs; the structs are not modified",
+     "h_struct_to_table", bound=STB, functions=["cfun_struct_to_table"], assumes=STA[:1] + STA[2:], **ST,
+     mutants=[mut("always-recursive", "struct.c", "    } while (recursive && cursor);", "    } while (cursor);", "C04"),
+              mut("pairs-into-first-table", "struct.c", "                janet_table_put(tab_cursor, kv->key, kv->value);\n            }\n        }\n        cursor = janet_struct_proto(cursor);", "                janet_table_put(tab, kv->key, kv->value);\n            }\n        }\n        cursor = janet_struct_proto(cursor);", "C04|harness"),
+              mut("reads-one-bucket-too-many", "struct.c", "        for (int32_t i = 0; i < janet_struct_capacity(cursor); i++) {\n            const JanetKV *kv = cursor + i;\n            if (!janet_checktype(kv->key, JANET_NIL)) {\n                janet_table_put(tab_cursor", "        for (int32_t i = 0; i <= janet_struct_capacity(cursor); i++) {\n            const JanetKV *kv = cursor + i;\n            if (!janet_checktype(kv->key, JANET_NIL)) {\n                janet_table_put(tab_cursor", "pointer_dereference|C04|harness")])
+unit("lib.struct.proto_flatten", "struct/proto-flatten: arity 1; ONE new struct without prototype, created with room for the sum of the lengths along the chain (64-bit sum, raises above INT32_MAX); the pairs are put nearest struct first without replacing, so the nearest definition of a key wins; the chain ends (structs cannot be cyclic); inputs not modified",
+     "h_struct_flatten", bound=STB, functions=["cfun_struct_flatten"], assumes=STA[:2] + STA[3:], **ST,
+     mutants=[mut("later-definitions-replace", "struct.c", "                janet_struct_put_ext(accum, kv->key, kv->value, 0);", "                janet_struct_put_ext(accum, kv->key, kv->value, 1);", "C04"),
+              mut("room-for-first-struct-only", "struct.c", "    JanetKV *accum = janet_struct_begin((int32_t) pair_count);", "    JanetKV *accum = janet_struct_begin(janet_struct_length(st));", "C04")])
 json.dump({"defaults": {"props": ["C17"], "mode": "dfcc", "timeout": 120, "object_bits": 8, "checks": CHECKS}, "units": units},
           open(os.path.join(V, "units", "C17_lib.json"), "w"), indent=1)
 print(len(units), "units")
